@@ -127,6 +127,10 @@ fn slp_cuts(out: &mut CaseOut, ctx: &Ctx, name: &str, bytes: &[u8], cuts: Vec<(u
 				let d = Arc::new(data[..*n].to_vec());
 				res.push((k, slp_cut_run(&d, *skip, *hash)));
 			}
+			// history control: the intact file still reads on this thread after all the rejected prefixes
+			if only.is_none() && !cuts2.is_empty() {
+				res.push((usize::MAX, slp_cut_run(&Arc::new(data.clone()), false, false)));
+			}
 			res
 		},
 		{
@@ -139,6 +143,14 @@ fn slp_cuts(out: &mut CaseOut, ctx: &Ctx, name: &str, bytes: &[u8], cuts: Vec<(u
 	match w {
 		Watched::Done(res) => {
 			for (k, o) in res {
+				if k == usize::MAX {
+					match o {
+						SlpOutcome::Accepted(_) => out.count("intact_file_reads_after_rejected_prefixes", 1),
+						SlpOutcome::Rejected(e) => out.violate("slp-intact-read-fails-after-truncated-reads", format!("[{}] after {} rejected prefixes on the same thread the intact file is rejected: {}", name, cuts.len(), e), Some(bytes)),
+						_ => out.violate("slp-intact-read-fails-after-truncated-reads", format!("[{}] intact file read misbehaves after {} rejected prefixes", name, cuts.len()), Some(bytes)),
+					}
+					continue;
+				}
 				let (n, skip, hash) = cuts[k];
 				slp_cut_judge(out, name, bytes.len(), &bytes[..n], n, skip, hash, n as u64, o);
 			}
@@ -202,7 +214,7 @@ impl Monitor for C07 {
 		"fault_enumeration"
 	}
 	fn rule(&self) -> String {
-		format!("crash points = EVERY byte offset 0..len-1 of {} small generated .slp files (all three framing regimes, ICs, gecko, end/no end/doubled end, metadata/none), each read with skip-frames off/on x hash off/on -> must be Err; and every byte offset of the .slpp archives peppi::write produces from them under none/LZ4/ZSTD (quick: archives of 4 seeds; thorough: all writable seeds), read with skip-frames off and on -> must be Err or a game that serialises to exactly the full .slp with the same hash/quirks; never a panic; hangs decided by syscall+progress evidence (thread in nanosleep with static cut counter) or >=20 s CPU without progress. Fixtures: header/table/start offsets, +-2 bytes around event boundaries, 512-byte tar boundaries +-1 and random offsets. One evaluation = one (file, offset, options) read. Exhaustive per explored file. distinct = (format, compression, outcome, region) classes.", self.seeds.len())
+		format!("crash points = EVERY byte offset 0..len-1 of {} small generated .slp files (all three framing regimes, ICs, gecko, end/no end/doubled end, metadata/none), each read with skip-frames off/on x hash off/on -> must be Err; and every byte offset of the .slpp archives peppi::write produces from them under none/LZ4/ZSTD (quick: archives of 4 seeds; thorough: all writable seeds), read with skip-frames off and on -> must be Err or a game that serialises to exactly the full .slp with the same hash/quirks; never a panic; after each batch of rejected prefixes the intact file/archive is read again on the same thread and must still be accepted as the full game (no state survives a failed read); hangs decided by syscall+progress evidence (thread in nanosleep with static cut counter) or >=20 s CPU without progress. Fixtures: header/table/start offsets, +-2 bytes around event boundaries, 512-byte tar boundaries +-1 and random offsets. One evaluation = one (file, offset, options) read. Exhaustive per explored file. distinct = (format, compression, outcome, region) classes.", self.seeds.len())
 	}
 	fn assumptions(&self) -> Vec<String> {
 		vec!["versions 3.0-3.6 and games without occupied ports cannot be written to .slpp (known finding under C02/C14) and are therefore only covered on the .slp side".into(), "exhaustive over offsets of the explored files only".into()]
@@ -274,6 +286,11 @@ impl Monitor for C07 {
 							res.push((n, skip, slpp_cut(&full, &hash, quirk, &bytes[..n], skip)));
 						}
 					}
+					// history control: after all those rejected reads, the intact archive must still
+					// read as the full game on this very thread (no state may survive a failed read)
+					if only.is_none() {
+						res.push((bytes.len(), false, slpp_cut(&full, &hash, quirk, &bytes[..], false)));
+					}
 					cur2.store(usize::MAX, Relaxed);
 					res
 				},
@@ -314,6 +331,14 @@ impl Monitor for C07 {
 			for (n, skip, o) in results {
 				out.evals += 1;
 				let sub = (n * 2 + skip as usize) as u64;
+				if n == a.bytes.len() {
+					// the positive control
+					match o {
+						SlppOutcome::Full => out.count("intact_archive_reads_after_rejected_reads", 1),
+						other => out.violate(format!("slpp-intact-read-fails-after-truncated-reads;comp={}", a.comp.name()), format!("[{}] after {} reads of truncated prefixes on the same thread, reading the intact archive gives {:?}", name, (hi - lo) * 2, other), Some(&a.bytes)),
+					}
+					continue;
+				}
 				let oc = match &o {
 					SlppOutcome::Rejected(_) => "rejected",
 					SlppOutcome::Full => "full-game",
